@@ -471,3 +471,106 @@ func VerifC06GossipStore() {
 	}
 	verifReach("end")
 }
+
+// ---- recovery client model: each peer answers with the operations it holds at or above the announced mark ----
+
+type verifRecClient struct {
+	RecoveryTransportClient
+	peers map[address.Address][]Operation
+	// interleave, when set, runs once inside the first Stream call: it models another recovery goroutine being
+	// scheduled after this one has read its high-water mark and before it applies anything
+	interleave func()
+}
+
+type verifRecClientStream struct {
+	RecoveryTransportClientStream
+	ops []Operation
+	hw  version.Counter
+	pos int
+}
+
+func (c *verifRecClient) Stream(_ context.Context, target address.Address) (RecoveryTransportClientStream, error) {
+	if f := c.interleave; f != nil {
+		c.interleave = nil
+		f()
+	}
+	return &verifRecClientStream{ops: c.peers[target]}, nil
+}
+
+func (s *verifRecClientStream) Send(r RecoveryRequest) error { s.hw = r.HighWater; return nil }
+
+func (s *verifRecClientStream) Receive() (RecoveryResponse, error) {
+	for s.pos < len(s.ops) {
+		op := s.ops[s.pos]
+		s.pos++
+		if op.Version.OlderThan(s.hw) {
+			continue
+		}
+		return RecoveryResponse{Operations: []Operation{op}}, nil
+	}
+	return RecoveryResponse{}, io.EOF
+}
+
+// VerifC06RecoveryApply: a restarted node that recovers from two peers holding different versions of a key ends up
+// with the newest of everything it was sent, whatever the order in which the peers are consulted: an applied
+// operation is never replaced by an older one.
+func VerifC06RecoveryApply() {
+	ctx := context.Background()
+	m := verifLen("m", 0, verifParam("m", 1))
+	kv, pre := verifStore(m)
+	k := verifBytes("key", 1)
+	p1, p2 := verifOp("peer1"), verifOp("peer2")
+	p1.Key, p2.Key = k, k
+	verifAssume(p1.Version != p2.Version || p1.Leaseholder != p2.Leaseholder)
+	// the key's lease is not transferable: both versions come from the same leaseholder
+	verifAssume(p1.Leaseholder == p2.Leaseholder)
+	var local *Operation
+	for i := range pre {
+		if verifBytesEq(pre[i].Key, k) {
+			local = &pre[i]
+			verifAssume(local.Leaseholder == p1.Leaseholder)
+			verifAssume(local.Version != p1.Version && local.Version != p2.Version)
+		}
+	}
+	cfg := Config{Engine: kv}
+	cfg.RecoveryTransportClient = &verifRecClient{peers: map[address.Address][]Operation{"p1": {p1}, "p2": {p2}}}
+	first, second := node.Node{Key: 2, Address: "p1"}, node.Node{Key: 3, Address: "p2"}
+	if verifBool("peer2-first") {
+		first, second = second, first
+	}
+	hw, _ := loadHighWater(ctx, cfg)
+	client := cfg.RecoveryTransportClient.(*verifRecClient)
+	if verifBool("concurrent") {
+		// runRecovery starts one goroutine per peer; schedule: the first reads its high-water mark, the second runs
+		// to completion, the first resumes
+		client.interleave = func() {
+			verifAssert("recover-second-no-error", runSingleNodeRecovery(ctx, cfg, second) == nil)
+		}
+		verifAssert("recover-first-no-error", runSingleNodeRecovery(ctx, cfg, first) == nil)
+	} else {
+		verifAssert("recover-first-no-error", runSingleNodeRecovery(ctx, cfg, first) == nil)
+		verifAssert("recover-second-no-error", runSingleNodeRecovery(ctx, cfg, second) == nil)
+	}
+	best := local
+	for _, c := range []*Operation{&p1, &p2} {
+		if c.Version.OlderThan(hw) {
+			continue // below the announced high-water mark: never sent
+		}
+		if best == nil || verifHSupersedes(*c, *best) {
+			best = c
+		}
+	}
+	dig, err := getDigestFromKV(ctx, kv, k)
+	if best == nil {
+		verifAssert("nothing-recovered", err != nil)
+	} else {
+		verifAssert("recovered-newest-wins", err == nil && dig.Version == best.Version && dig.Variant == best.Variant)
+		v, ok := kv.lookup(k)
+		if best.Variant == change.VariantDelete {
+			verifAssert("recovered-value-delete", !ok)
+		} else {
+			verifAssert("recovered-value-set", ok && verifBytesEq(v, best.Value))
+		}
+	}
+	verifReach("end")
+}
